@@ -1,0 +1,53 @@
+//go:build verif
+
+package hagrid
+
+// Contracts for the deductive checker in /verif (comment-only; compiled only under the verif tag).
+//
+// shk(h) is the ghost absorb-history of a SHAKE state (declared in /verif/specs/stdlib.spec):
+// absorb(s, data) is the state after writing data. Every operation's framing is pinned exactly:
+// tag byte, 64-bit big-endian lengths of the label, of the message count and of each message.
+
+// appended(s, ms, k): state after absorbing the first k messages, each preceded by its 64-bit length
+//@ ghost func appended(s V, ms [][]byte, k int) V
+//@ theory hagrid
+//@ axiom Appended0: forall s V, ms [][]byte :: appended(s, ms, 0) == s
+//@ axiom AppendedS: forall s V, ms [][]byte, k int :: k > 0 ==> appended(s, ms, k) == absorb(absorb(appended(s, ms, k-1), be64(len(ms[k-1]))), ms[k-1])
+//@ end
+
+//@ func (*transcript).AppendDomainSeparator
+//@   property C19
+//@   ensures shk(t.h) == absorb(absorb(absorb(old(shk(t.h)), bytes(domainTag)), be64(len(domainSeparatorTag))), strbytes(domainSeparatorTag))
+//@   ensures t.h == old(t.h)
+
+//@ func (*transcript).AppendBytes
+//@   property C19
+//@   uses hagrid
+//@   let pre = absorb(absorb(absorb(absorb(shk(t.h), bytes(appendTag)), be64(len(label))), strbytes(label)), be64(len(messages)))
+//@   ensures shk(t.h) == appended(pre, messages, len(messages))
+//@   ensures t.h == old(t.h)
+//@   loop range(messages)
+//@     invariant shk(t.h) == appended(pre, messages, $i)
+//@     invariant t.h == old(t.h)
+
+//@ func (*transcript).ExtractBytes
+//@   property C19
+//@   nopanic
+//@   let framed = absorb(absorb(absorb(absorb(shk(t.h), bytes(extractTag)), be64(len(label))), strbytes(label)), be64(outLen))
+//@   ensures outLen == 0 ==> err != nil && shk(t.h) == old(shk(t.h))
+//@   ensures outLen != 0 ==> shk(t.h) == absorb(framed, bytes(continuedTag))
+//@   ensures outLen != 0 && err == nil ==> result == squeeze(absorb(framed, bytes(extractedTag)), outLen)
+//@   ensures t.h == old(t.h)
+
+//@ func cloneShake
+//@   property C19
+//@   ensures result != h && result != nil
+//@   ensures shk(result) == old(shk(h))
+//@   ensures shk(h) == old(shk(h))
+
+//@ func (*transcript).Clone
+//@   property C19
+//@   ensures as(result, *transcript) != t
+//@   ensures as(result, *transcript).h != t.h
+//@   ensures shk(as(result, *transcript).h) == old(shk(t.h))
+//@   ensures shk(t.h) == old(shk(t.h)) && t.h == old(t.h)
